@@ -5,7 +5,10 @@
 // callbacks installed by the harness (nil callbacks are no-ops).
 package verifhook
 
-import "sync/atomic"
+import (
+	"sync"
+	"sync/atomic"
+)
 
 type callback struct{ f func(name string) }
 
@@ -44,6 +47,23 @@ func Crash(name string) {
 	if cb := crashCB.Load(); cb != nil {
 		cb.f(name)
 	}
+}
+
+var flags sync.Map
+
+// SetFlag switches the named behaviour on or off.
+func SetFlag(name string, on bool) {
+	if on {
+		flags.Store(name, true)
+		return
+	}
+	flags.Delete(name)
+}
+
+// Flag reports whether the harness switched the named behaviour on.
+func Flag(name string) bool {
+	_, ok := flags.Load(name)
+	return ok
 }
 
 // Enabled reports whether hooks are compiled in.
